@@ -361,9 +361,9 @@ def _r2_r3_producer(run, st, work_queues):
                          kind="producer-skip", stage=st.name)
             continue
         # a put whose failure (queue.Full / any exception) is swallowed skips the item
-        sk = _swallowed_put(st, e.node, lnode)
-        if sk:
-            run.violated("C03.R2", f, e.node, sk, kind="put-failure-swallowed", stage=st.name)
+        swallow_msg = _swallowed_put(st, e.node, lnode)
+        if swallow_msg:
+            run.violated("C03.R2", f, e.node, swallow_msg, kind="put-failure-swallowed", stage=st.name)
             continue
         hs = _helper_swallows(project, f, e)
         if hs:
@@ -377,6 +377,116 @@ def _r2_r3_producer(run, st, work_queues):
         run.holds("C03.R2", f, e.node, "producer iterates the same source under the same guard as the serial sibling",
                   stage=st.name, source=sym.show(it)[:120], guard=_show_guard(g),
                   serial=(serial_func or caller).short)
+        _r3_processing(run, st, e, k, it, caller, serial_func, sres, sk)
+
+
+def _call_args_of(project, caller, callee_func):
+    """{param name of callee_func: term of the argument in caller's namespace} for the (unique) call."""
+    ev = sym.make_evaluator(project, caller.module.name, [])
+    r = ev.run(caller.node)
+    for e in r.events:
+        if e.kind == "call" and common.resolve_callee(project, caller, e.node) is callee_func:
+            params = callee_func.params()
+            if callee_func.cls is not None and params and params[0] in ("self", "cls"):
+                params = params[1:]
+            out = {p: a for p, a in zip(params, e.term[2])}
+            out.update({k: v for k, v in e.term[3]})
+            return out
+    return None
+
+
+def _subst_terms(t, m):
+    if t in m:
+        return m[t]
+    if isinstance(t, tuple):
+        t2 = tuple(_subst_terms(x, m) if isinstance(x, tuple) else x for x in t)
+        # flatten *(<tuple>) inside call argument lists
+        if len(t2) == 4 and t2[0] == "call":
+            args = []
+            for a in t2[2]:
+                if a[0] == "star" and a[1][0] in ("tuple", "list"):
+                    args.extend(a[1][1])
+                else:
+                    args.append(a)
+            t2 = ("call", t2[1], tuple(args), t2[3])
+        return t2
+    return t
+
+
+def _r3_processing(run, st, put, k, it, caller, serial_func, sres, sk):
+    """R3: what a worker does with a received item equals what the serial sibling does with the same
+    item: same callee, same arguments, compared in the namespace of the dispatcher that calls both."""
+    project = run.project
+    f, w = st.func, st.worker
+    EL = ("sym", "<ITEM-SOURCE-ELEMENT>")
+    # ---- worker side
+    wev = sym.make_evaluator(project, w.module.name, [])
+    wr = wev.run(w.node)
+    qparam = [p for p, v in st.queue_params().items() if v == put.qvar]
+    if not qparam:
+        return
+    gets = [e for e in wr.events if e.kind == "call" and e.term[1][0] == "attr" and e.term[1][1] == ("sym", qparam[0]) and e.term[1][2] in ("get", "get_nowait")]
+    if not gets:
+        return
+    G = gets[0].term
+    stage_args = _call_args_of(project, caller, f) if caller is not f else {}
+    if stage_args is None:
+        return
+    m = {}
+    # received value -> the item that was put (in the stage's namespace), element -> EL
+    item = put.item
+    m[G] = item
+    # worker params -> stage expressions -> caller namespace
+    sev = sym.make_evaluator(project, f.module.name, [])
+    for p_, expr in st.binding.items():
+        if isinstance(expr, ast.Name):
+            m[("sym", p_)] = ("sym", expr.id)
+        elif isinstance(expr, ast.Attribute):
+            m[("sym", p_)] = sev.expr(expr)
+    to_caller = {("sym", p_): v for p_, v in stage_args.items()}
+    to_caller[("elem", it)] = EL
+    # ---- serial side
+    s_to_caller = {}
+    if serial_func is not None:
+        sa = _call_args_of(project, caller, serial_func)
+        if sa is None:
+            return
+        s_to_caller = {("sym", p_): v for p_, v in sa.items()}
+    s_it = [it_ for k_, it_, n_ in sres.loops if k_ == sk]
+    if not s_it:
+        return
+    s_to_caller[("elem", s_it[0])] = EL
+    s_calls = [x for x in sres.events if x.kind == "call" and _loop_index_of(x.pc) == sk and not _is_progress(x.term)
+               and x.term[1][0] == "sym" and x.term[1][1] not in ("print",)]
+    # only stages whose serial side is "call a function per item" (inline bodies are compared by C09.R1)
+    proc = [x for x in s_calls if any(a[0] in ("item", "elem") or a == ("elem", s_it[0]) for a in atoms_of_args(x.term))]
+    if len(proc) != 1:
+        return
+    S = _subst_terms(proc[0].term, s_to_caller)
+    w_calls = [x for x in wr.events if x.kind == "call" and x.term[1][0] == "sym" and x.term[1][1] in {p_ for p_ in w.params()}]
+    cands = []
+    for x in w_calls:
+        t1 = _subst_terms(x.term, m)
+        t2 = _subst_terms(t1, to_caller)
+        cands.append((x, t2))
+    same_callee = [(x, t) for x, t in cands if t[1] == S[1]]
+    if not same_callee:
+        run.violated("C03.R2", w, gets[0].node, "the serial path processes each item with %s, but the worker of %s never calls the corresponding function on a "
+                     "received item" % (sym.show(S[1]), st.name), kind="worker-processing-missing", stage=st.name)
+        return
+    x, t = same_callee[0]
+    if t == S:
+        run.holds("C03.R2", w, x.node, "worker processes a received item exactly as the serial sibling does: %s" % sym.show(S)[:120], stage=st.name)
+    else:
+        run.violated("C03.R2", w, x.node, "a received item is processed as %s in the worker but as %s in serial mode (compared in the namespace of %s): the two "
+                     "modes do not perform the same work on the same item" % (sym.show(t)[:140], sym.show(S)[:140], caller.short), kind="worker-vs-serial-processing", stage=st.name)
+
+
+def atoms_of_args(term):
+    out = set()
+    for a in term[2]:
+        out |= sym.atoms_of(a)
+    return out
 
 
 def _swallowed_put(st, put_call, loop_stmt):
